@@ -96,6 +96,8 @@ class Prop(PropBase):
                 l = self.L[t]
                 cfg = scen.rand_cfg(rng, dense=rng.randrange(2), wait=rng.randrange(2), pktcb=rng.randrange(2), lclock=rng.randrange(2),
                                     user=rng.choice([0, 0, 4, 64]), tail=rng.choice([0, 0, 2, 64]))
+                if r == 1 and l.mech:
+                    cfg.mode, cfg.nblk = 3, 0          # SPLIT_BY_CUSTOM_BLKS with num_blks_split = 0 is accepted: every block closes a frame
                 s = scen.Scn(f'c08_{t}_{r}')
                 s.drv(0, l, cfg)
                 dual = rng.random() < 0.3
